@@ -19,17 +19,23 @@ EXTENDS Integers, Sequences, FiniteSets
 
 CONSTANTS LB        \* the engine's lookback delta in buckets (5 min = 20)
 
-AllQuirks == {"bucket_grain", "from_exclusive", "step_regroup"}
+AllQuirks == {"bucket_grain", "from_exclusive", "step_merge", "retimed_before_bucket", "narrow_window"}
 (* bucket_grain    metrics_15s_mv keeps one row per (fingerprint, 15 s bucket) stamped with the START of the bucket: the samples
                    of a bucket cross a window edge together, and the engine applies the function to per-bucket aggregates
                    (avg of avgs)
    from_exclusive  init_downsample_clickhouse_planner.go: samples.timestamp_ns > From (From = hints.Start = the closed lower
                    edge of the first window)
-   step_regroup    hints_downsample_planner.go: rows are merged per epoch-aligned step bucket g = intDiv(ts [+ range], step)
-                   and stamped g*step - 1 ms (the instant BEFORE the data of the bucket); when step > range only the rows with
-                   ts % step = 0 or ts % step > step - range survive *)
+   hints_downsample_planner.go, branch "step <= range, or not a range function":
+   step_merge      the rows of an epoch-aligned step bucket g = intDiv(ts, step) are merged into one point; taken alone the
+                   point is stamped with the last millisecond of the step bucket, (g+1)*step - 1 ms
+   retimed_before_bucket  (only with step_merge) the point is stamped g*step - 1 ms: the instant BEFORE the data of the bucket
+   hints_downsample_planner.go, branch "range function and step > range":
+   narrow_window   only rows with ts % step = 0 or ts % step > step - range survive; they are merged per
+                   g = intDiv(ts + range, step) and stamped g*step - 1 ms *)
 
-RangeFns == {"sum_over_time", "count_over_time", "avg_over_time", "min_over_time", "max_over_time", "last_over_time"}
+RangeFns == {"sum_over_time", "count_over_time", "avg_over_time", "min_over_time", "max_over_time", "last_over_time", "present_over_time"}
+\* functions over an instant selector: "" = the bare selector, "sum" = the aggregation sum(selector) over all series
+InstFns  == {"", "sum"}
 
 Tick(x) == 3 * x.b + x.p
 
@@ -47,7 +53,10 @@ Norm(n, d) == LET g == Gcd(n, d) IN [n |-> n \div g, d |-> d \div g]
 Evals(rq)   == 0 .. ((rq.en - rq.st) \div rq.S)
 EvalAt(rq, k) == rq.st + k * rq.S
 \* width of the engine's window in buckets
-Win(rq) == IF rq.fn = "" THEN LB ELSE rq.R
+Win(rq) == IF rq.fn \in InstFns THEN LB ELSE rq.R
+
+\* sum(..) over the series that have a point at an evaluation time (integer values only); the answer is series 0
+AggSum(P) == {LET Pk == {p \in P : p.k = k} IN [s |-> 0, k |-> k, n |-> SumF([p \in Pk |-> p.n], Pk), d |-> 1] : k \in {p.k : p \in P}}
 
 (***************************** the definition *****************************)
 DefVal(fn, W) ==
@@ -56,11 +65,14 @@ DefVal(fn, W) ==
       [] fn = "avg_over_time"   -> Norm(SumF([x \in W |-> x.v], W), Cardinality(W))
       [] fn = "min_over_time"   -> Norm(MinOf({x.v : x \in W}), 1)
       [] fn = "max_over_time"   -> Norm(MaxOf({x.v : x \in W}), 1)
+      [] fn = "present_over_time" -> Norm(1, 1)
       [] OTHER                  -> Norm((CHOOSE x \in W : \A y \in W : Tick(y) <= Tick(x)).v, 1)   \* "" and last_over_time
 DefW(D, rq, s, k) == {x \in D : x.s = s /\ Tick(x) >= 3 * (EvalAt(rq, k) - Win(rq)) /\ Tick(x) <= 3 * EvalAt(rq, k)}
-Def(D, rq) ==
+DefSel(D, rq) ==
     LET pts == {p \in {x.s : x \in D} \X Evals(rq) : DefW(D, rq, p[1], p[2]) # {}}
     IN  {LET v == DefVal(rq.fn, DefW(D, rq, p[1], p[2])) IN [s |-> p[1], k |-> p[2], n |-> v.n, d |-> v.d] : p \in pts}
+
+Def(D, rq) == IF rq.fn = "sum" THEN AggSum(DefSel(D, rq)) ELSE DefSel(D, rq)
 
 (****************************** the mechanism ******************************)
 \* a row: aggregate states of a set of samples of one series; lt = the argMax key of `last`
@@ -80,12 +92,15 @@ Hi(rq) == 3 * rq.en
 Filter(RS, rq, Q) == {r \in RS : (IF "from_exclusive" \in Q THEN r.ts > Lo(rq) ELSE r.ts >= Lo(rq)) /\ r.ts <= Hi(rq)}
 \* DownsampleHintsPlanner
 Regroup(RS, rq, Q) ==
-    IF "step_regroup" \notin Q THEN RS
-    ELSE LET st3    == 3 * rq.S
-             narrow == rq.fn \in RangeFns /\ rq.S > rq.R
-             kept   == IF narrow THEN {r \in RS : r.ts % st3 = 0 \/ r.ts % st3 > st3 - 3 * rq.R} ELSE RS
-             lab(r) == IF narrow THEN ((r.ts + 3 * rq.R) \div st3) * st3 - 1 ELSE (r.ts \div st3) * st3 - 1
-         IN  {MergeRows({r \in kept : r.s = key[1] /\ lab(r) = key[2]}, key[1], key[2]) : key \in {<<r.s, lab(r)>> : r \in kept}}
+    LET st3    == 3 * rq.S
+        narrow == rq.fn \in RangeFns /\ rq.S > rq.R
+        on     == IF narrow THEN "narrow_window" \in Q ELSE "step_merge" \in Q
+        kept   == IF narrow THEN {r \in RS : r.ts % st3 = 0 \/ r.ts % st3 > st3 - 3 * rq.R} ELSE RS
+        lab(r) == IF narrow THEN ((r.ts + 3 * rq.R) \div st3) * st3 - 1
+                  ELSE IF "retimed_before_bucket" \in Q THEN (r.ts \div st3) * st3 - 1
+                  ELSE (r.ts \div st3 + 1) * st3 - 1
+    IN  IF ~on THEN RS
+        ELSE {MergeRows({r \in kept : r.s = key[1] /\ lab(r) = key[2]}, key[1], key[2]) : key \in {<<r.s, lab(r)>> : r \in kept}}
 \* the value column per function (getValueMerge) followed by the engine's function over the points of the window;
 \* count_over_time: a point of value n is expanded into n points of value 1 (TranspileLabelMatchersDownsample MapResult)
 EngVal(fn, W) ==
@@ -95,10 +110,12 @@ EngVal(fn, W) ==
                                    IN  Norm(SumF([r \in W |-> r.sm * (den \div r.cn)], W), den * Cardinality(W))
       [] fn = "min_over_time"   -> Norm(MinOf({r.mn : r \in W}), 1)
       [] fn = "max_over_time"   -> Norm(MaxOf({r.mx : r \in W}), 1)
+      [] fn = "present_over_time" -> Norm(1, 1)     \* the value column is the constant 1
       [] OTHER                  -> Norm((CHOOSE r \in W : \A q \in W : q.ts <= r.ts).la, 1)
 EngW(RS, rq, s, k) == {r \in RS : r.s = s /\ r.ts >= 3 * (EvalAt(rq, k) - Win(rq)) /\ r.ts <= 3 * EvalAt(rq, k)}
-Engine(RS, rq) ==
+EngSel(RS, rq) ==
     LET pts == {p \in {r.s : r \in RS} \X Evals(rq) : EngW(RS, rq, p[1], p[2]) # {}}
     IN  {LET v == EngVal(rq.fn, EngW(RS, rq, p[1], p[2])) IN [s |-> p[1], k |-> p[2], n |-> v.n, d |-> v.d] : p \in pts}
+Engine(RS, rq) == IF rq.fn = "sum" THEN AggSum(EngSel(RS, rq)) ELSE EngSel(RS, rq)
 Mech(D, rq, Q) == Engine(Regroup(Filter(MV(D, Q), rq, Q), rq, Q), rq)
 =============================================================================
